@@ -42,6 +42,7 @@ def run_one(funcs, o, tier):
     rec = dict(o)
     rec.pop("spec", None)
     rec["spec"] = o["spec"].get("name", o["id"])
+    rec["native"] = o["spec"].get("native")
     t0 = time.time()
     roots = find_roots(funcs, spec["root"])
     if len(roots) > 1 and spec.get("root_impl"):
